@@ -540,6 +540,41 @@ func (sn *stepNode) blockStep() bool {
 	return true
 }
 
+// blockStepRaw is blockStep for use beside another goroutine that delivers messages: it touches no
+// harness state (no step counter, no drain of the outgoing queue, no trace); the caller drains once
+// both are done. Returns the error text of a failed ProcessBlock ("" otherwise).
+func (sn *stepNode) blockStepRaw() string {
+	block := sn.node.state.NextBlock()
+	if block == nil {
+		return ""
+	}
+	bctx := sn.ctx
+	if sn.blockCtx != nil {
+		bctx = sn.blockCtx
+	}
+	dead := ""
+	var err0 error
+	guard("ProcessBlock", func() { err0 = sn.node.ProcessBlock(bctx, block) })
+	if err0 != nil {
+		c := errors.Cause(err0)
+		if c != ErrBlockNotNextBlock && c != ErrBlockNotAdded {
+			return err0.Error()
+		}
+	}
+	getBlocks := wire.NewMsgGetData()
+	for {
+		requestHash, _ := sn.node.state.GetNextBlockToRequest()
+		if requestHash == nil {
+			break
+		}
+		_ = getBlocks.AddInvVect(wire.NewInvVect(wire.InvTypeBlock, requestHash))
+	}
+	if len(getBlocks.InvList) > 0 {
+		sn.node.queueOutgoing(getBlocks)
+	}
+	return dead
+}
+
 // txStep mirrors one iteration of processUnconfirmedTxs.
 func (sn *stepNode) txStep() bool {
 	sn.step++
